@@ -35,7 +35,7 @@ RULE = (
     'loading the result with yaml.safe_load gives numerically the original '
     'parameter tree. Part values: arbitrary finite master-curve values '
     'written into a small dataset, `simulate rise --observations` through '
-    'the rise instruction file, extracted value == printed value. '
+    'the rise instruction file, extracted value == printed value; part many_values has 9999-12000 levels (observation names e1 .. e12000), names compared between control and instruction file. '
     'Non-trivial: >= 2 recession levels and a literal with an exponent in '
     'its repr (files); a printed value longer than 20 characters (values); '
     'distinct = SHA-1 of the case.'
@@ -362,6 +362,17 @@ def _same_number(a, b):
 # ------------------------------------------------------- value round trips
 
 @st.composite
+def many_value_cases(draw):
+    """A fine grid over a long record: ten thousand observations and more
+    (names e1 .. e12000); values follow a rule so the case stays small."""
+    return {'many': {'n': draw(st.sampled_from([10000, 10001, 12000, 9999,
+                                                 10000, 10500])),
+                     'a': draw(st.sampled_from([0.125, -0.125, 0.3])),
+                     'b': draw(st.integers(-40, 40)) / 8.0},
+            'sy': draw(st.sampled_from([0.125, 0.5, 1.0]))}
+
+
+@st.composite
 def value_cases(draw):
     n = draw(st.integers(2, 6))
     values = [draw(st.one_of(
@@ -407,16 +418,23 @@ def tiny_dataset(values):
     return connection
 
 
+def many_values(rule):
+    return [rule['b'] + rule['a'] * k + (k % 7 - 3) * 1.5
+            for k in range(rule['n'])]
+
+
 def check_values(case):
-    values = case['values']
+    values = many_values(case['many']) if 'many' in case else case['values']
     try:
         connection = tiny_dataset(values)
     except Exception as exc:  # pylint: disable=broad-except
         raise Reject('tiny dataset not built: ' + type(exc).__name__) from exc
     params = {'specific_yield': {
-        'type': 'spline', 'zeta_knots_mm': [-10.0, 0.0, 10.0, 20.0],
+        'type': 'spline', 'zeta_knots_mm': [
+            -10.0, 0.0, 10.0, float(max(20, len(values) + 5))],
         'sy_knots': [case['sy']] * 4},
-        'transmissivity': {'type': 'spline', 'zeta_knots_mm': [-10.0, 50.0],
+        'transmissivity': {'type': 'spline', 'zeta_knots_mm': [
+            -10.0, float(max(50, len(values) + 5))],
                            'K_knots_km_d': [1.0, 1.0],
                            'minimum_transmissivity_m2_d': 1.0}}
     text = yaml.safe_dump(params)
@@ -443,8 +461,17 @@ def check_values(case):
                         repr((measured, values)))
     obs_lines = [l for l in model_pest.control_sections(
         pst.getvalue())['observation data'] if l.strip()]
+    if len(obs_lines) != len(values):
+        raise Violation('observation-count-differs-from-master-curve',
+                        '{} lines, {} levels'.format(
+                            len(obs_lines), len(values)))
     for line, want in zip(obs_lines, values):
-        if float(line.split()[1]) != want:
+        fields = line.split()
+        try:
+            stored = float(fields[1])
+        except (IndexError, ValueError):
+            stored = None
+        if stored != want:
             raise Violation('observation-not-identical-master-curve-value',
                             '{!r} vs {!r}'.format(line, want))
     try:
@@ -452,7 +479,16 @@ def check_values(case):
                                                  vec.getvalue())
     except (LookupError, ValueError) as exc:
         raise Violation('instruction-file-not-understood', str(exc)) from exc
+    if [name.lower() for name, _, _, _ in extracted] != [
+            line.split()[0].lower() for line in obs_lines]:
+        raise Violation(
+            'observation-names-differ-between-pst-and-ins',
+            repr(([n for n, _, _, _ in extracted][-2:],
+                  [line.split()[0] for line in obs_lines][-2:])))
     labels = set()
+    if 'many' in case:
+        labels.add('observations>=10000' if len(values) >= 10000
+                   else 'observations<10000')
     for (name, field, value, line), want in zip(extracted, simulated):
         if len(line) - 2 > 20:
             labels.add('nontrivial')
@@ -477,4 +513,9 @@ PARTS = [
     Part('values', check_values, strategy=lambda tier: value_cases(),
          budget={'quick': 150, 'thorough': 5000},
          describe='printed simulation values through the instruction file'),
+    Part('many_values', check_values,
+         strategy=lambda tier: many_value_cases(),
+         budget={'quick': 2, 'thorough': 4},
+         shards={'quick': 4, 'thorough': 16},
+         describe='9999-12000 observations in one control file'),
 ]
